@@ -1694,6 +1694,13 @@ func (x *Exec) sliceOp(st *State, fr *Frame, v *ssa.Slice) Value {
 		if av.Bytes != nil {
 			// view of the array as a region (aliasing with the array variable is not tracked: copy semantics)
 			s := x.newByteSlice(st, av.Bytes, "arrview")
+			// ownership follows the array: a view of a package-level or caller-owned array is not memory this call owns
+			if x.isGlobalObj(b.Obj) || b.Glob != "" || !b.Obj.Fresh || b.Obj.Pool {
+				s.Reg.Fresh = false
+				s.Reg.FreshT = nil
+			} else if b.Obj.FreshT != nil {
+				s.Reg.FreshT = b.Obj.FreshT
+			}
 			return &SliceVal{Reg: s.Reg, Off: lo, Len: Sub(hi, lo), Cap: Sub(n, lo), Nil: TFalse, Elt: s.Elt}
 		}
 		panic(unsupported("slice of non-byte array"))
